@@ -6,7 +6,8 @@
                                                       out: <id> one character per name: "!" error | "=" accepted unchanged | "+" accepted as name ++ suffix | ?hex? other
           <id> ALW <cfg> <name>,<name>,...            out: <id> bits          allowedb cfg name, one character per name
           <id> REG <cfg>                              out: <id> save=b load=b exec=b run=b
-          <id> FS <cfg> <base> <req>+<req>+...        base ::= "@" | <name>:<content>,...
+          <id> DEF <B> <base>                         out: <id> ok           names a baseline file system for later cases
+          <id> FS <cfg> <base> <req>+<req>+...        base ::= "@" | <name>:<content>,... | =<B>
                req ::= S:<name>:<content>:<ok> | L:<name> | I:<found>:<content>:<ok> | X | R
                ok = whether os.Create of the resolved name succeeds (the OS, an argument of the model)
                out: <id> o+o+... | <name>=<content>/<allowed>,...   (files new or changed w.r.t. base, sorted by hex name; "@" if none)
@@ -29,8 +30,11 @@ let outcome_str = function
   | OImageSaved -> "img"
   | OSpawned -> "spawned"
 
+let bases : (string, string) Hashtbl.t = Hashtbl.create 7
+
 let () = iter_lines (fun line ->
   match split_on ' ' line with
+  | [id; "DEF"; name; base] -> Hashtbl.replace bases name base; print_endline (id ^ " ok")
   | [id; "SAN"; cs; names] ->
     let c = cfg_of cs in
     let rs = List.map (fun nm -> match sanitize c (arg_of nm) with None -> "!" | Some f -> hex_of_bytes f) (split_on ',' names) in
@@ -60,6 +64,7 @@ let () = iter_lines (fun line ->
     Printf.printf "%s save=%s load=%s exec=%s run=%s\n" id (has FSave) (has FLoad) (has FExec) (has FRun)
   | [id; ("FS" | "FSL" as kind); cs; base; reqs] ->
     let c = cfg_of cs in
+    let base = if String.length base > 0 && base.[0] = '=' then Hashtbl.find bases (String.sub base 1 (String.length base - 1)) else base in
     let f0 : fs = if base = "@" then [] else
       List.map (fun e -> match split_on ':' e with
         | [n; d] -> (bytes_of_hex n, bytes_of_hex d) | _ -> failwith "bad base entry") (split_on ',' base) in
